@@ -322,6 +322,7 @@ class _JSONPipeCommunicator:
 
         self._read_fd: int
         self._write_fd: int | None
+        self._buffer = b""
         self._selector: selectors.BaseSelector
 
         if not read_pipe.exists():
@@ -346,14 +347,17 @@ class _JSONPipeCommunicator:
         events = self._selector.select(timeout=self._timeout)
         for _, mask in events:
             if mask & selectors.EVENT_READ:
-                with os.fdopen(os.dup(self._read_fd), "r", encoding="utf-8") as fd:
-                    buffer = ""
-                    while line := fd.readline():
-                        if line.strip() == self.DELIMITER:
-                            buffer = buffer.strip()
-                            return json.loads(buffer) if buffer else buffer
-                        buffer += line
-        return None
+                # A message may arrive in several pieces, keep what was read:
+                with contextlib.suppress(BlockingIOError):
+                    while chunk := os.read(self._read_fd, 65536):
+                        self._buffer += chunk
+        end_marker = f"\n{self.DELIMITER}\n".encode()
+        end = self._buffer.find(end_marker)
+        if end < 0:
+            return None
+        message = self._buffer[:end].decode("utf-8").strip()
+        self._buffer = self._buffer[end + len(end_marker) :]
+        return json.loads(message) if message else message
 
     def write(self, data: str | list[Any] | dict[str, Any]) -> bool:
         class NumpyEncoder(json.JSONEncoder):
@@ -370,9 +374,13 @@ class _JSONPipeCommunicator:
         events = self._selector.select(timeout=self._timeout)
         for _, mask in events:
             if mask & selectors.EVENT_WRITE:
-                os.write(
-                    self._write_fd,
-                    f"{json.dumps(data, cls=NumpyEncoder)}\n{self.DELIMITER}\n".encode(),
-                )
+                message = f"{json.dumps(data, cls=NumpyEncoder)}\n{self.DELIMITER}\n"
+                remaining = message.encode()
+                while remaining:
+                    # The pipe takes a limited number of bytes at a time:
+                    try:
+                        remaining = remaining[os.write(self._write_fd, remaining) :]
+                    except BlockingIOError:
+                        time.sleep(0.001)
                 return True
         return False
